@@ -34,6 +34,10 @@ where
                 Op::SetNodes {
                     data_centers: new_data_centers,
                 } => {
+                    // Data centers which are no longer part of the membership
+                    // must not stay selectable.
+                    data_centers.clear();
+
                     let mut new_total = 0;
                     for (name, nodes) in new_data_centers {
                         new_total += nodes.len();
